@@ -326,7 +326,11 @@ func marching3(r *vlib.Run) {
 			mesh, in := model3d.MarchingCubesInterior(s, delta, iters)
 			checkMarching(c, "model3d.MarchingCubesInterior", s, delta, iters, mesh, in, dyadic)
 		case 2:
-			mesh := model3d.MarchingCubesSearchFilter(s, func(*model3d.Rect) bool { return true }, delta, iters)
+			// the filter owns the rectangle it is handed: it may use it as scratch space
+			mesh := model3d.MarchingCubesSearchFilter(s, func(rc *model3d.Rect) bool {
+				rc.MinVal, rc.MaxVal = rc.MaxVal.AddScalar(1e3), rc.MinVal.AddScalar(-1e3)
+				return true
+			}, delta, iters)
 			checkMarching(c, "model3d.MarchingCubesSearchFilter", s, delta, iters, mesh, nil, dyadic)
 		default:
 			mesh, in := model3d.MarchingCubesInterior(s, delta, iters)
